@@ -94,6 +94,10 @@ def exSub (a b : String) : Bool :=
 structure Hist where
   dels : List (Option Nat × Int × Int) := []
   cleaned : Bool := false
+  seen : List Nat := []        -- series appended to so far
+  shrunk : Bool := false       -- a deletion or head compaction happened (a series may have left the head)
+  armed : Bool := false        -- … and a restart happened afterwards (`lastSeriesID` restored from a snapshot)
+  lateBorn : List Nat := []    -- series first appended to while `armed`
 
 def Hist.covers (h : Hist) (x : Nat × Smp) : Bool :=
   h.dels.any fun d => (match d.1 with | none => true | some j => j == x.1) && decide (d.2.1 ≤ x.2.t ∧ x.2.t ≤ d.2.2)
@@ -114,8 +118,12 @@ def neKind (h : Hist) (mode use : String) (a b : Rows) : String :=
   -- is absent from B, or B lists a label set twice, or the samples sit under another series
   let mixA := onlyA.all fun x => cnt b x.1 == 0 || cnt b x.1 > 1 || (flat b).any fun y => y.1 != x.1 && y.2 == x.2
   let mixB := extra.all fun y => cnt b y.1 > 1 || (flat a).any fun x => x.1 != y.1 && x.2 == y.2
-  if !onlyA.isEmpty ∧ mixA ∧ mixB then "series-ref-reuse"
-  else if (b.any fun p => cnt b p.1 > 1) ∧ mixA ∧ mixB then "series-ref-reuse"
+  let differing := (onlyA ++ extra).map (·.1)
+  -- precondition of the finding: some differing series was created after a restart that followed a
+  -- deletion / head compaction
+  let pre := h.armed && differing.any fun i => h.lateBorn.contains i
+  if pre ∧ !onlyA.isEmpty ∧ mixA ∧ mixB then "series-ref-reuse"
+  else if pre ∧ (b.any fun p => cnt b p.1 > 1) ∧ mixA ∧ mixB then "series-ref-reuse"
   else if subRows a b ∧ !extra.isEmpty then
     if mode = "crash" ∧ use = "loaded" ∧ extra.all (fun x => decide (x.2.t ≤ 0)) then "tail-nonpositive-ts"
     else if h.cleaned ∧ extra.all h.covers then "wal-replays-deleted"
@@ -196,10 +204,15 @@ def judgeLines (ooo : Bool) (pairs : List (String × String)) : Option String :=
       match res with
       | some v => some v
       | none =>
+        let restart := f.head? = some "reopen" ∨ f.head? = some "fork" ∨ (f.head? = some "snapq" ∧ f.getD 1 "" ≠ "crash")
         let h' : Hist := match parseOp? (opPart op) with
-          | some (.del a b sel) => { h with dels := (sel, a, b) :: h.dels }
+          | some (.del a b sel) => { h with dels := (sel, a, b) :: h.dels, shrunk := true }
           | some .cleantomb => { h with cleaned := true }
-          | _ => h
+          | some .compact => { h with shrunk := true }
+          | some (.app i _ _) =>
+            if h.seen.contains i then h
+            else { h with seen := i :: h.seen, lateBorn := if h.armed then i :: h.lateBorn else h.lateBorn }
+          | _ => if restart ∧ h.shrunk then { h with armed := true } else h
         go h' (k + 1) rest
   go {} 0 pairs
 
